@@ -735,6 +735,31 @@ func isNumeric(sys System, s string) (int64, bool) {
 	return n, true
 }
 
+// isBigNumber reports whether s is a decimal number by the rules of isNumeric
+// that does not fit in an int64.
+func isBigNumber(sys System, s string) bool {
+	if len(s) < 19 || (s[0] == '0' && sys != NPM) {
+		return false
+	}
+	for i := 0; i < len(s); i++ {
+		if s[i] < '0' || '9' < s[i] {
+			return false
+		}
+	}
+	_, err := strconv.ParseInt(s, 10, 64)
+	return err != nil
+}
+
+// compareDigits compares two strings of decimal digits as numbers of any size.
+func compareDigits(a, b string) int {
+	a = strings.TrimLeft(a, "0")
+	b = strings.TrimLeft(b, "0")
+	if len(a) != len(b) {
+		return sgn(len(a), len(b))
+	}
+	return sgnStr(a, b)
+}
+
 // elem reports whether the next item is an alphanumeric item, and returns it.
 func (p *versionParser) elem(isBuild bool) (string, bool) {
 	start := p.lex.pos
@@ -851,6 +876,21 @@ func compareElem(sys System, s1, s2 string) int {
 	n2, ok2 := isNumeric(sys, s2)
 	if ok1 && ok2 {
 		return sgn64(n1, n2)
+	}
+	if sys != NuGet {
+		// A number too large for an int64 is still a number. (NuGet reads
+		// identifiers as int32 and takes what does not fit for text.)
+		big1 := !ok1 && isBigNumber(sys, s1)
+		big2 := !ok2 && isBigNumber(sys, s2)
+		switch {
+		case big1 && big2:
+			return compareDigits(s1, s2)
+		case big1 && ok2:
+			return 1
+		case ok1 && big2:
+			return -1
+		}
+		ok1, ok2 = ok1 || big1, ok2 || big2
 	}
 	// Numbers are lower than alphas.
 	if ok1 {
